@@ -72,3 +72,76 @@ func truncReuse(samplingFrequency int) audioEntry {
 func makeRange(startNr, endNr uint32) [2]uint32 { return [2]uint32{startNr, endNr} }
 
 func swappedForward(startNr, endNr uint32) [2]uint32 { return makeRange(endNr, startNr) }
+
+// L-MAKEAPPEND
+type lengths struct{ L []uint32 }
+
+func makeThenAppend(n int) *lengths {
+	b := &lengths{}
+	b.L = make([]uint32, n)
+	for i := 0; i < n; i++ {
+		b.L = append(b.L, uint32(i))
+	}
+	return b
+}
+
+// W-NARROW-ACC
+func narrowAcc(durs []uint32, base uint64) uint64 {
+	var acc uint32
+	for _, d := range durs {
+		acc += d
+	}
+	return base + uint64(acc)
+}
+
+// L-SIBLING
+type weights struct {
+	WeightsL0 []weight
+	WeightsL1 []weight
+}
+type weight struct {
+	Flag  bool
+	Delta int
+}
+
+func siblingLoop(w *weights, vals []int) {
+	for i := range w.WeightsL1 {
+		if w.WeightsL0[i].Flag {
+			w.WeightsL1[i].Delta = vals[i]
+		}
+	}
+}
+
+// R3-RET
+type msg struct{ T uint }
+
+func DecodeAliasing(sd *msg) interface{} { return sd }
+
+// L-NILRANGE
+type holder struct{ Items []*msg }
+
+func (h *holder) removeAll() (out []*msg, total uint) {
+	out = h.Items
+	h.Items = nil
+	for _, it := range h.Items {
+		total += it.T
+	}
+	return out, total
+}
+
+// L-RANGEVAL
+func rangeValAssign(ps [][]byte, data []byte) [][]byte {
+	pos := 0
+	for _, p := range ps {
+		copy(data[pos:], p)
+		p = data[pos : pos+len(p)]
+		pos += len(p)
+	}
+	return ps
+}
+
+// UseHolder keeps the method set of holder reachable.
+func UseHolder(h *holder) uint {
+	_, t := h.removeAll()
+	return t
+}
